@@ -290,43 +290,56 @@ def stepD (cfg : Cfg) (r : Recip) (d : Dgram) : Recip × Verdict :=
 
 /-! ### Which key and nonce a message is protected with
 
-`coap_oscore_new_pdu_encrypted_lkd` (requests, responses, notifications) together with the association bookkeeping of
-`coap_oscore_decrypt_pdu` (request path), transcribed from the tree after the fixes 155f0b4 (a response to an Observe
-request always uses the Sender Sequence Number) and the one that sets the association up only after the request has
-been verified.  The key is always the Sender Key; the nonce is a function of (id, Partial IV): the endpoint's own
-Sender ID with its sequence number (`Nonce.own`), or the peer's id with the Partial IV of the request
-(`Nonce.ofReq`, `association->nonce`). -/
-
-/-- `oscore_association_t`: the Partial IV (hence nonce and AAD) of the request, `is_observe`. -/
-structure Assoc where
-  reqPiv : Nat
-  observe : Bool
-  deriving DecidableEq, Repr
+`coap_oscore_new_pdu_encrypted_lkd` (requests, responses, notifications, the protected 4.01 + Echo challenge of
+Appendix B.1.2) together with the association bookkeeping of `coap_oscore_decrypt_pdu` (request path) and of the request
+path of `coap_oscore_new_pdu_encrypted_lkd`, the save watermark / persistent store and the restart of the process —
+the whole sender side of one security context over its life.  Transcribed from the tree after the fixes 155f0b4 (a
+response to an Observe request always uses the Sender Sequence Number), b3c6528 (the association is set up only after the
+request has been verified) and bba9d79 (`is_client`: an association that belongs to a request sent from this end never
+protects a response).  The key is always the Sender Key; the nonce is a function of (id, Partial IV): the endpoint's own
+Sender ID with its sequence number (`Nonce.own`), or the peer's id with the Partial IV of the request (`Nonce.ofReq`,
+`association->nonce`). -/
 
 inductive Nonce where
   | own (piv : Nat)
   | ofReq (piv : Nat)
   deriving DecidableEq, Repr
 
-/-- An endpoint that is server and client on one security context: recipient context, sender context, and the
-associations of its session (token ↦ association). -/
+/-- `oscore_association_t` (`session->associations`, keyed by the token — ONE table for the requests the session sends
+and the requests it receives): the nonce (with it AAD and Partial IV) of the request, `is_observe`, `is_client`. -/
+structure Assoc where
+  nonce : Nonce
+  observe : Bool
+  client : Bool
+  deriving DecidableEq, Repr
+
+/-- An endpoint that is server and client on one security context and one session: recipient context, sender context
+with `ssn_freq` and the persistent store of the save callback (`SSys`), and the associations of its session. -/
 structure Endp where
   rcp : Recip
-  snd : Snd
+  sys : SSys
   assocs : Nat → Option Assoc
 
-def Endp.fresh : Endp := { rcp := Recip.fresh, snd := { seq := 0, next := 0 }, assocs := fun _ => none }
+/-- the endpoint after a (re)start with `ssn_freq = f`, `start_seq_num = start` -/
+def Endp.start (f start : Nat) : Endp := { rcp := Recip.fresh, sys := SSys.start f start, assocs := fun _ => none }
+
+def Endp.fresh : Endp := Endp.start 1 0
+
+def Endp.snd (e : Endp) : Snd := e.sys.s
 
 inductive NOp where
   | reqIn (token : Nat) (ev : Ev) (observe : Bool)      -- a protected request (inner Observe option or not) arrives
-  | sendReq                                             -- the endpoint protects a request of its own
+  | sendReq (token : Nat) (observeOpt : Bool) (dereg : Bool)   -- the endpoint protects a request of its own (Observe option? value 1?)
   | sendRsp (token : Nat) (observeOpt : Bool) (sendPiv : Bool)   -- it protects a response (Observe option? OSCORE_SEND_PARTIAL_IV?)
+  | crash (f : Nat)       -- the process dies; restart with `start_seq_num` = the value last handed to the save callback, ssn_freq `f`
   deriving DecidableEq, Repr
 
 inductive NObs where
   | verdict (v : Verdict)
   | sent (piv : Option Nat) (nonce : Nonce)     -- Partial IV in the OSCORE option, nonce handed to the AEAD
+  | chal (piv : Option Nat)     -- Appendix B.1.2: the 4.01 + Echo, protected with this Partial IV of its own (`none`: it could not be protected, nothing is sent)
   | err
+  | resumed (seq : Nat)
   deriving DecidableEq, Repr
 
 /-- Did the request get past "8.2 Step 3" and the decryption (the code after it sets the association up)? -/
@@ -339,45 +352,67 @@ def decrypted (cfg : Cfg) (r : Recip) (ev : Ev) : Bool :=
 def setAssoc (a : Nat → Option Assoc) (t : Nat) (v : Option Assoc) : Nat → Option Assoc :=
   fun t' => if t' = t then v else a t'
 
-/-- the part of `coap_oscore_new_pdu_encrypted_lkd` that takes the Partial IV from the Sender Sequence Number:
-`none` = `oscore_increment_sender_seq` refused (the counter is incremented all the same). -/
-def ownPiv (s : Snd) : Snd × Option Nat :=
-  let x := protect 1 s
-  (x.1, x.2.piv)
+/-- the part of `coap_oscore_new_pdu_encrypted_lkd` that takes the Partial IV from the Sender Sequence Number and runs
+the save watermark: `none` = `oscore_increment_sender_seq` refused (the counter is incremented all the same). -/
+def ownPiv (y : SSys) : SSys × Option Nat :=
+  let x := protect y.f y.s
+  ({ y with s := x.1, stored := match x.2.saved with | some v => v | none => y.stored }, x.2.piv)
+
+/-- `coap_oscore_new_pdu_encrypted_lkd` for a response with token `t` -/
+def respond (e : Endp) (t : Nat) (obsOpt sendPiv : Bool) : Endp × NObs :=
+  match e.assocs t with
+  | none => (e, .err)                                   -- association == NULL: goto error
+  | some a =>
+    if a.client then (e, .err)                          -- || association->is_client: goto error
+    else
+      -- if (association->is_observe && !doing_observe && send_partial_iv == OSCORE_SEND_NO_IV) send_partial_iv = OSCORE_SEND_PARTIAL_IV;
+      let sendPiv := sendPiv || (a.observe && !obsOpt)
+      if obsOpt || sendPiv then
+        let x := ownPiv e.sys
+        match x.2 with
+        | none => ({ e with sys := x.1 }, .err)
+        | some p =>
+          -- if (association && association->is_observe == 0) oscore_delete_association()
+          ({ e with sys := x.1, assocs := if a.observe then e.assocs else setAssoc e.assocs t none }, .sent (some p) (.own p))
+      else
+        -- 8.3 Step 3: nonce of the request; no Partial IV in the option
+        ({ e with assocs := if a.observe then e.assocs else setAssoc e.assocs t none }, .sent none a.nonce)
 
 def nstep (cfg : Cfg) (e : Endp) : NOp → Endp × NObs
   | .reqIn t ev obs =>
     let x := recv cfg e.rcp ev
-    -- after a successful decryption: find / refresh / create the association of the token (is_observe kept / 0)
+    -- after a successful decryption: find / refresh / create the association of the token (is_observe kept / 0, is_client = 0)
     let a1 := if decrypted cfg e.rcp ev then
-        setAssoc e.assocs t (some { reqPiv := ev.piv, observe := match e.assocs t with | some a => a.observe | none => false })
+        setAssoc e.assocs t (some { nonce := .ofReq ev.piv, observe := (match e.assocs t with | some a => a.observe | none => false),
+                                    client := false })
       else e.assocs
-    -- inner Observe option of an accepted request: association->is_observe = 1
-    let a2 := if x.2 = .acc ∧ obs then
-        (match a1 t with | some a => setAssoc a1 t (some { a with observe := true }) | none => a1)
-      else a1
-    ({ e with rcp := x.1, assocs := a2 }, .verdict x.2)
-  | .sendReq =>
-    let x := ownPiv e.snd
+    if x.2 = .chal then
+      -- Appendix B.1.2 trap: build_and_send_error_pdu(…, echo_value, NULL, 1) protects the 4.01 as a response for this
+      -- token with send_partial_iv = 1
+      let y := respond { e with rcp := x.1, assocs := a1 } t false true
+      (y.1, .chal (match y.2 with | .sent p _ => p | _ => none))
+    else
+      -- inner Observe option of an accepted request: association->is_observe = 1
+      let a2 := if x.2 = .acc ∧ obs then
+          (match a1 t with | some a => setAssoc a1 t (some { a with observe := true }) | none => a1)
+        else a1
+      ({ e with rcp := x.1, assocs := a2 }, .verdict x.2)
+  | .sendReq t obsOpt dereg =>
+    let x := ownPiv e.sys
     match x.2 with
-    | none => ({ e with snd := x.1 }, .err)
-    | some p => ({ e with snd := x.1 }, .sent (some p) (.own p))
-  | .sendRsp t obsOpt sendPiv =>
-    match e.assocs t with
-    | none => (e, .err)                                   -- association == NULL: goto error
-    | some a =>
-      -- if (association->is_observe && !doing_observe && send_partial_iv == OSCORE_SEND_NO_IV) send_partial_iv = OSCORE_SEND_PARTIAL_IV;
-      let sendPiv := sendPiv || (a.observe && !obsOpt)
-      if obsOpt || sendPiv then
-        let x := ownPiv e.snd
-        match x.2 with
-        | none => ({ e with snd := x.1 }, .err)
-        | some p =>
-          -- if (association && association->is_observe == 0) oscore_delete_association()
-          ({ e with snd := x.1, assocs := if a.observe then e.assocs else setAssoc e.assocs t none }, .sent (some p) (.own p))
-      else
-        -- 8.3 Step 3: nonce of the request; no Partial IV in the option
-        ({ e with assocs := if a.observe then e.assocs else setAssoc e.assocs t none }, .sent none (.ofReq a.reqPiv))
+    | none => ({ e with sys := x.1 }, .err)
+    | some p =>
+      -- found: is_client = 1, is_observe = doing_observe && observe_value != 1, nonce / aad / partial_iv replaced;
+      -- not found: oscore_new_association(…, doing_observe), is_client = 1
+      let a : Assoc := match e.assocs t with
+        | some _ => { nonce := .own p, observe := obsOpt && !dereg, client := true }
+        | none => { nonce := .own p, observe := obsOpt, client := true }
+      ({ e with sys := x.1, assocs := setAssoc e.assocs t (some a) }, .sent (some p) (.own p))
+  | .sendRsp t obsOpt sendPiv => respond e t obsOpt sendPiv
+  | .crash f =>
+    -- new process: oscore_derive_ctx with start_seq_num = the stored value, a fresh recipient context, a new session
+    ({ rcp := Recip.fresh, sys := { f := f, s := restart f e.sys.stored, stored := e.sys.stored }, assocs := fun _ => none },
+      .resumed e.sys.stored)
 
 def nrun (cfg : Cfg) : Endp → List NOp → List NObs
   | _, [] => []
@@ -385,10 +420,15 @@ def nrun (cfg : Cfg) : Endp → List NOp → List NObs
     let x := nstep cfg e op
     x.2 :: nrun cfg x.1 ops
 
+/-- the nonce handed to the AEAD (always with the Sender Key) by one operation -/
+def nemit : NObs → List Nonce
+  | .sent _ n => [n]
+  | .chal (some p) => [.own p]
+  | _ => []
+
 /-- The nonces handed to the AEAD (always with the Sender Key) in a history. -/
 def nonces : List NObs → List Nonce
   | [] => []
-  | .sent _ n :: r => n :: nonces r
-  | _ :: r => nonces r
+  | o :: r => nemit o ++ nonces r
 
 end Coap.Replay
